@@ -115,6 +115,9 @@ def ref_target_view(text, var):
     return None
 
 
+MALFORMED_KEYS = ["", " ", "a.", ".a", "a..b", '"x', "${x", "a b", "1a", "a.\"", "\t"]
+
+
 def run_reference_leg(spec, res):
     """Documents whose target set is reached through a name: `let x = { .. }; y = ..; in x`.
     Histories mix the document mapping (get / set / del) with re-binding `x` through the scope
@@ -319,6 +322,11 @@ def run_shard(spec):
                 key, kclass = rng.choice(root_keys), "attrpath-root"
             elif kc < 0.85 and [k for k in keys_here if isinstance(view[k], dict) and k not in root_keys]:
                 key, kclass = rng.choice([k for k in keys_here if isinstance(view[k], dict) and k not in root_keys]), "explicit-set"
+            elif rng.random() < 0.3:
+                # not bound and not even a well-formed attribute path: still "a missing key"
+                key, kclass = rng.choice(MALFORMED_KEYS), "missing"
+                opk = rng.choice(["get", "del"])
+                B.bump(obs.setdefault("malformed_missing_keys", {}), repr(key))
             else:
                 key, kclass = "missing" + str(rng.randrange(30)), "missing"
             if key in inherit_keys:
